@@ -171,6 +171,58 @@ def global_state_census(rep):
     else:
         rep.proved('C20.globals', 'frames', f'{len(containers)} module-level containers; run-time writers: {({k[1]: [s.where for s in v] for k, v in writers.items()})}', function='(whole repository)',
                    clause='no module-level mutable state is written after import (except RESERVED_KEYWORDS, see reserved.idem)')
+    # class-level mutable containers (shared by every instance and every thread) and the sites that write through an attribute of that name
+    ccont = {}
+    is_cont = lambda val: isinstance(val, (ast.Dict, ast.List, ast.Set, ast.ListComp, ast.DictComp, ast.SetComp)) or \
+        (isinstance(val, ast.Call) and isinstance(val.func, ast.Name) and val.func.id in ('dict', 'list', 'set', 'defaultdict', 'OrderedDict'))
+    for m in mods:
+        for cls in ast.walk(repo.module_ast(m)):
+            if not isinstance(cls, ast.ClassDef):
+                continue
+            inst = set()      # names re-bound per instance in __init__ (self.NAME = ...): the class-level value is only a default
+            for fn in cls.body:
+                if isinstance(fn, ast.FunctionDef) and fn.name == '__init__':
+                    for n in ast.walk(fn):
+                        if isinstance(n, ast.Assign):
+                            inst |= {t.attr for t in n.targets if isinstance(t, ast.Attribute) and isinstance(t.value, ast.Name) and t.value.id == 'self'}
+            for st in cls.body:
+                if isinstance(st, ast.Assign) and is_cont(st.value):
+                    for t in st.targets:
+                        if isinstance(t, ast.Name) and t.id not in inst:
+                            ccont[(m, cls.name, t.id)] = type(st.value).__name__
+    cwriters = {}
+    for (m, cname, name) in ccont:
+        def predc(n, name=name):
+            if isinstance(n, ast.Call) and isinstance(n.func, ast.Attribute) and n.func.attr in frames.MUTATORS and isinstance(n.func.value, ast.Attribute) and n.func.value.attr == name:
+                return True
+            if isinstance(n, (ast.Assign, ast.AugAssign, ast.Delete)):
+                ts = n.targets if isinstance(n, (ast.Assign, ast.Delete)) else [n.target]
+                return any(isinstance(t, ast.Subscript) and isinstance(t.value, ast.Attribute) and t.value.attr == name for t in ts)
+            return False
+        sites = [s_ for s_ in frames.scan(predc, mods) if s_.func != '<module>']
+        if sites:
+            cwriters[(m, cname, name)] = sites
+    rep.census['class_level_containers'] = len(ccont)
+    if cwriters:
+        for (m, cname, name), sites in cwriters.items():
+            rep.failed(f'C20.globals.class.{cname}.{name}', 'frames', f'class-level container {m}:{cname}.{name} (shared by all instances) is written at run time by {sites[:3]}', function=f'{m}:{cname}',
+                       clause='no class-level mutable container is written after import', replay=replay_class_state(m, cname, name))
+    else:
+        rep.proved('C20.globals.class', 'frames', f'{len(ccont)} class-level containers ({sorted(n for _, _, n in ccont)[:12]}...); none is written through an attribute at run time', function='(whole repository)',
+                   clause='no class-level mutable container is written after import')
+    # memoisation decorators share results between calls: none today; if one appears its result type needs a contract (immutable => fine)
+    memo = []
+    for m in mods:
+        for fn in ast.walk(repo.module_ast(m)):
+            if isinstance(fn, (ast.FunctionDef, ast.AsyncFunctionDef)):
+                for d in fn.decorator_list:
+                    dn = ast.unparse(d)
+                    if any(k in dn for k in ('lru_cache', 'functools.cache', 'cached_property')) or dn in ('cache', 'cache()'):
+                        memo.append(f'{m}:{fn.name} @{dn}')
+    if memo:
+        rep.undecided('C20.globals.memo', 'frames', f'memoised functions (shared results, not covered by the frame argument): {memo[:5]}: contract needs review', function='(whole repository)')
+    else:
+        rep.proved('C20.globals.memo', 'frames', 'no lru_cache / cache / cached_property decorator in mindsdb_sql', function='(whole repository)', clause='no result is memoised across calls')
     # stores into generated tables
     tbl = [s for a in ('_lrtable', '_grammar', 'lr_action', 'lr_goto', 'defaulted_states', '_master_re', '_token_funcs') for s in frames.attr_stores(a, mods) + frames.attr_mutations(a, mods)]
     (rep.failed if tbl else rep.proved)('C20.tables.readonly', 'frames', f'{tbl or "no store into generated parser/lexer tables anywhere in mindsdb_sql"}', function='(whole repository)',
@@ -183,14 +235,52 @@ def global_state_census(rep):
     fd = repo.find_function('mindsdb_sql.parser.ast.select.identifier', 'get_reserved_words')
     muts = [n for n in ast.walk(fd) if isinstance(n, ast.Call) and isinstance(n.func, ast.Attribute) and n.func.attr in frames.MUTATORS]
     only_add = all(n.func.attr == 'add' for n in muts)
-    src = ast.unparse(fd)
-    from_consts = 'SQLLexer.tokens | MindsDBLexer.tokens' in src
+    # history independence of the added values: the function has no parameters and every free name it reads is a module, a class, a function,
+    # a compiled constant or RESERVED_KEYWORDS itself (names bound inside the function - imports, loop variables, assignments - are local)
+    import builtins, types
+    bound = {a.arg for a in fd.args.args + fd.args.kwonlyargs}
+    for n in ast.walk(fd):
+        if isinstance(n, ast.Name) and isinstance(n.ctx, (ast.Store, ast.Del)):
+            bound.add(n.id)
+        elif isinstance(n, (ast.Import, ast.ImportFrom)):
+            bound |= {(a.asname or a.name).split('.')[0] for a in n.names}
+    free = sorted({n.id for n in ast.walk(fd) if isinstance(n, ast.Name) and isinstance(n.ctx, ast.Load)} - bound)
+    impure = []
+    for nm in free:
+        if nm == 'RESERVED_KEYWORDS' or hasattr(builtins, nm):
+            continue
+        v = getattr(idmod, nm, None)
+        if not isinstance(v, (types.ModuleType, type, types.FunctionType, str, int, frozenset, tuple)) and type(v).__name__ != 'Pattern':
+            impure.append(nm)
+    from_consts = not impure and not fd.args.args and not fd.args.kwonlyargs and fd.args.vararg is None and fd.args.kwarg is None
     if r1 == r2 and before <= r1 and only_add and from_consts:
         rep.proved('C20.reserved.idem', 'frames', f'get_reserved_words only adds names of the constant token tables; second call returns the same {len(r1)} words',
                    function='mindsdb_sql.parser.ast.select.identifier:get_reserved_words', clause='the shared set only grows, by values independent of arguments and history; fixed point after the first call')
     else:
-        rep.failed('C20.reserved.idem', 'frames', f'RESERVED_KEYWORDS handling changed: only_add={only_add} from_constants={from_consts} stable={r1 == r2}',
+        rep.failed('C20.reserved.idem', 'frames', f'RESERVED_KEYWORDS handling changed: only_add={only_add} from_constants={from_consts} (free names read: {free}, not constant: {impure}) stable={r1 == r2}',
                    function='mindsdb_sql.parser.ast.select.identifier:get_reserved_words')
+
+
+def replay_class_state(m, cname, name):
+    """history witness: render one identifier for two dialects in both orders in fresh interpreters; the class-level container must not make the second render depend on the first"""
+    code = (
+        "import sys, json, warnings; warnings.simplefilter('ignore')\n"
+        "from mindsdb_sql import parse_sql\n"
+        "from mindsdb_sql.render.sqlalchemy_render import SqlalchemyRender\n"
+        "q = 'select `Order Id`, `User` from orders'\n"
+        "out = []\n"
+        "for d in sys.argv[1:]:\n"
+        "    out.append(SqlalchemyRender(d).get_string(parse_sql(q), with_failback=False))\n"
+        "print(json.dumps(out))\n")
+    try:
+        env = dict(os.environ, PYTHONPATH=REPO_ROOT, PYTHONWARNINGS='ignore')
+        a = json.loads(subprocess.run([sys.executable, '-c', code, 'mysql', 'postgres'], capture_output=True, text=True, env=env, timeout=120).stdout.strip().splitlines()[-1])
+        b = json.loads(subprocess.run([sys.executable, '-c', code, 'postgres', 'mysql'], capture_output=True, text=True, env=env, timeout=120).stdout.strip().splitlines()[-1])
+        fires = a[1] != b[0] or a[0] != b[1]
+        return {'input': 'render `select `Order Id`, `User` from orders` for mysql then postgres vs postgres then mysql', 'dialect': 'mindsdb', 'fires': fires,
+                'observed': f'mysql-first: {a}; postgres-first: {b}'[:300], 'expected': 'each dialect renders the same text whatever was rendered before'}
+    except Exception as e:
+        return {'input': f'{m}:{cname}.{name}', 'dialect': 'mindsdb', 'fires': False, 'observed': f'{type(e).__name__}: {e}'[:120]}
 
 
 def catalog_obligations(rep):
